@@ -132,7 +132,8 @@ def _get_part(mod, name):
 
 
 def _crash_dir(prop):
-    d = os.path.join(HERE, ".scratch", "current_cases", prop)
+    # one directory per run (two runs of the same check may be going on side by side)
+    d = os.path.join(HERE, ".scratch", "current_cases", "%s_%s" % (prop, os.environ.get("VP_RUN_ID", "0")))
     os.makedirs(d, exist_ok=True)
     return d
 
@@ -392,7 +393,9 @@ def main(argv=None):
     try:
         return _main(argv)
     finally:
-        for d in glob.glob(os.path.join(HERE, ".scratch", "p%d_*" % os.getpid())):
+        for d in glob.glob(os.path.join(HERE, ".scratch", "p%d_*" % os.getpid())) + glob.glob(
+            os.path.join(HERE, ".scratch", "current_cases", "*_%d" % os.getpid())
+        ):
             shutil.rmtree(d, ignore_errors=True)
 
 
